@@ -11,62 +11,66 @@ unlinked by a partial GC pass — show that it is preserved by `step` and by `re
 further crash-recoveries) and prove on `ReachX`: (a) restarts reproduce the abstract state, (b)
 crash atomicity from any call boundary, (c) the C05 refinement keeps applying.
 
-WHAT IS PROVED (no `sorry`, no new axiom).
+WHAT IS PROVED (no `sorry`, no new axiom) — for EVERY crash point (k, cut), any number of times.
 * `CInvX` (`MRL/Proofs/LInv.lean`): `JInv l J` for SOME journal `J` (the in-memory part, unchanged)
-  and a relaxed disk invariant (`XInvX`): the tracked files `F … cur` are full-size and hold the
-  layout of tagged frames followed by zeros; the NEXT FILE MAY ALREADY EXIST, EMPTY (`x = true`);
-  the frames are lead frames followed by GROUPS: live groups (the frames of the retained journal
-  entries, in order) and DEAD groups (a proper prefix of the frames of an entry that was never
-  finished: orphan First/Middle frames). Nothing relates the handles on disk and in memory: the
-  chain / first-file / cursor clauses of `CInv` are dropped, everything is up to `AbsEq`.
+  and a relaxed disk invariant (`XInvX`, `MRL/Proofs/LDisk.lean`): the tracked files `F … cur` are
+  full-size and hold the bytes of a list of ITEMS followed by zeros; the NEXT FILE MAY ALREADY EXIST,
+  EMPTY (`x = true`). An item (`MRL/Proofs/LItems.lean`) is a tagged frame with an optional
+  override of the bytes of its slot: `none` = the frame as written; `some r` = JUNK, the frame being
+  only a placeholder of the exact slot size (so the position theory `endPos`/`hdrPos`/`Fits`/
+  `Tagged`/cuts is reused). Junk (`JunkOK`) is either a complete slot whose checksum fails (a torn
+  PAYLOAD with intact header: one `corrupt` event, the reader goes on after the slot) or a torn
+  HEADER (1–6 bytes, not all zero, zeros to the end of the block, another block follows: one
+  `corrupt` event, the rest of the block is given up). Moreover a RESIDUE of at most 6 junk bytes may
+  stand where the writer stands, in the very last block (a torn header there: the reader stops in
+  front of it; the next frame overwrites it). The items are lead frames followed by GROUPS: live
+  groups (the frames of the retained journal entries, in order), dead groups (a proper prefix of
+  the frames of an entry that was never finished: orphan First/Middle frames) and junk groups (one
+  junk slot). Nothing relates the handles on disk and in memory: everything is up to `AbsEq`.
   `CInvX.of_cinv`: every `CInv` triple is a `CInvX` triple.
-* preservation: `cinvx_step` (one call), `cinvx_reopen` (`open`: the recovered log satisfies `CInvX`
-  on the same disk for the RE-ATTRIBUTED journal — the retained entries, each attributed to the
-  file the reader attributes it to — and has the same abstract state).
-* `crash_cinvx_partial`: from any `ReachX` call boundary (in particular any `ReachD` one), for every
-  crash point (k, cut) whose image is the image after a whole number of effects of the call
-  (`AtBoundary`), the recovered log, with the disk and `BufWriter` state after the effects of
+* preservation: `cinvx_step` (one call; the first frame written overwrites the residue),
+  `cinvx_reopen` (`open`: the recovered log satisfies `CInvX` on the same disk for the RE-ATTRIBUTED
+  journal — the retained entries, each attributed to the file the reader attributes it to, a
+  `corrupt` event moving the attribution to its file — and has the same abstract state).
+* `crash_cinvx`: from any `ReachX` call boundary (in particular any `ReachD` one), for EVERY crash
+  point (k, cut), the recovered log, with the disk and `BufWriter` state after the effects of
   `recover`, satisfies `CInvX` (+ `BufOK`) and has the abstract state before or after the call.
-  COVERED: (A) the roll-over windows — next file created and still EMPTY (then `nextFile = some nf`
-  and the next roll-over takes the `ensureLen` branch: the F2 repair), next file ZERO-FILLED;
-  (B) EVERY crash point of the unlink phase of a GC pass (any prefix of the unlinks done); (C) of
-  the dead regions: crashes between two frame writes (orphan First/Middle frames of an unfinished
-  entry, padding written or not), between the entry and the GC touches, between touches, before /
-  after each flush / fsync. NOT COVERED by `crash_cinvx_partial`: a cut strictly inside the bytes
-  of one `write` effect that changes what `open` reads (a torn frame header or payload). After such
-  a crash `open` skips the slot of the torn frame (intact header) or the rest of the block (torn
-  header), so later frames follow a junk region; the frame-layout theory underlying `CInvX`
-  (`layoutBufs` = frames and zero padding only) does not describe junk regions. For these crash
-  points everything that does not need the disk invariant is still proved (next items).
-  `op_boundaries_covered` (+ `crashImage_full_write`, `crashImage_nonwrite`): the image after ANY
-  whole number of OS operations of the call lies at an effect boundary, whatever the `BufWriter`
-  capacity — so every crash point (k, cut) whose operation `k` is not a write, or is a write of at
-  most `cut` bytes, is covered. (Sample, `g = ⟨16, 2⟩`, `cap = 16`: 50 of the 82 crash points of a
-  truncate with a 5-file GC, 49 of 152 of a two-payload append with roll-overs, 26 of 42 of a
-  delete lie at effect boundaries.)
-* `ReachX`: `ReachD` states, closed under `step`, `reopen`, crash-recovery of a call at a covered
-  crash point (`crash`), crash-recovery during the effects of `open` itself at a covered crash point
-  (`crash2`). `reachX_inv`: every `ReachX` state satisfies `CInvX` for some serialisable journal.
-* on every `ReachX` state:
+  The heart is `L.CutCtx.classify` (`MRL/Proofs/LClass.lean`): whatever the byte at which the write
+  of an entry was cut, the tape is a tape of items again — the frames written entirely are kept
+  (as a dead group if the entry is unfinished); the frame that was cut leaves nothing (only zeros
+  reached the disk, or it is complete), a junk slot (torn payload whose checksum fails — this is
+  where the CRC collision clause `TornStep` is used; torn header not in the last block), or a residue
+  (torn header in the last block, possibly mixed with what was left of an older residue). The
+  reader over items is `L.readS_itemsJ` / `L.read_diskX` (`LScanJ.lean`, `LRead.lean`), built on
+  the codec agent's `Torn.scanB_raw` and `Torn.scanB_torn`.
+  (`crash_cinvx_partial`, the previous delivery restricted to effect boundaries, is kept as a
+  corollary; `op_boundaries_covered`, `crashImage_full_write`, `crashImage_nonwrite` too.)
+* `ReachX`: `ReachD` states, closed under `step`, `reopen`, crash-recovery of a call at ANY crash
+  point (`crash`), crash-recovery during the effects of `open` itself at ANY crash point (`crash2`).
+  `reachX_inv`: every `ReachX` state satisfies `CInvX` for some serialisable journal.
+* on every `ReachX` state — hence after arbitrary byte-level crashes, any number of times:
   (a) `C02_usable_restart`: dropping the log and opening the directory again succeeds and gives the
       same abstract state (`AbsEq`: names, positions, payloads, next positions).
   (b) `C02_usable_crash_atomic`: from any call boundary (`b.pend = []`), for EVERY crash point
-      (k, cut) — torn writes included — `recover` succeeds with the abstract state before or after
-      the call. `C02_usable_second_crash`: the same for EVERY crash point of `open` itself.
+      (k, cut), `recover` succeeds with the abstract state before or after the call.
+      `C02_usable_second_crash`: the same for EVERY crash point of `open` itself.
   (c) `C02_usable_refines`: `C05.Inv` holds, so `C05_refines` applies to every further call.
 * `C02_usable`: for EVERY crash point (k, cut) of a call from a `ReachX` boundary, `recover` succeeds
   and the recovered log behaves exactly as the log `lref ∈ {l, l after the call}` that never
   crashed: for any further calls (whatever the tick / GC-order oracles on either side) the logical
   outcomes are identical and the final abstract states are equal (`absEq_run`, through the C05
-  specification). At the covered crash points the recovered state is moreover `ReachX` again, so
-  (a), (b), (c) apply to it and to everything that follows (`C02_usable_reach`).
+  specification). The recovered state is `ReachX` again (`C02_usable_reach_all`), so (a), (b), (c)
+  and `C02_usable` apply to it and to everything that follows.
 
 DEVIATIONS. (1) the journal of a recovered state is not `J` / `J ++ l.stepJ g c order (++ gcJ)`:
 it is that journal restricted to the entries at or after the first remaining file, with the
-attributions the READER makes (they can differ from the writer's when an entry spans a whole file or
-after a roll-over into a pre-created file — the handle finding of `C02Atomic`); it exists
-(`∃ J'`), is serialisable, and replays to the recovered queues exactly. (2) (a)/(b) are stated
-with `AbsEq` as allowed. (3) `crash_cinvx` is restricted as described (`AtBoundary`).
+attributions the READER makes (they can differ from the writer's when an entry spans a whole file,
+after a roll-over into a pre-created file, or after a `corrupt` slot — the handle finding of
+`C02Atomic`); it exists (`∃ J'`), is serialisable, and replays to the recovered queues exactly.
+(2) (a)/(b) are stated with `AbsEq` as allowed. (3) the hypotheses are those of `C02_crash_atomic`:
+`g.B ≤ 65542`, serialisable entries (`C07.WF`), the CRC collision clause for the frames of the call
+being interrupted (`TornStep`, resp. `TornEffs` for `open`), a call boundary with an empty
+`BufWriter` (`b.pend = []`).
 No misbehaving continuation was found: an exhaustive run (`g = ⟨16, 2⟩`, `cap = 16`, all (k, cut) of
 truncate / append / delete calls, 7 further calls, two reopens, and double crashes) found none.
 -/
@@ -109,7 +113,6 @@ inductive ReachX (g : Geom) (cap : Nat) : Log → Image → BufSt → Prop
       ReachX g cap l img b → b.pend = [] →
       (∀ j ∈ l.stepJ g c order, C07.WF j.e) → C02A.TornStep g l c tick order →
       X = crashImage img (toOsOps cap b (l.step g c tick order).2.2).2 k cut →
-      AtBoundary img (l.step g c tick order).2.2 X →
       recoverPre g X policy' none = .ok (lp, e0, io) →
       recover g X policy' order' none = .ok r →
       (∀ j ∈ lp.gcJ g order', C07.WF j.e) →
@@ -122,7 +125,6 @@ inductive ReachX (g : Geom) (cap : Nat) : Log → Image → BufSt → Prop
       recover g (flushDisk img b) policy order none = .ok r0 →
       (∀ j ∈ lp0.gcJ g order, C07.WF j.e) → TornEffs r0.effects →
       X = crashImage (flushDisk img b) (toOsOps cap {} r0.effects).2 k cut →
-      AtBoundary (flushDisk img b) r0.effects X →
       recoverPre g X policy' none = .ok (lp, e0, io) →
       recover g X policy' order' none = .ok r →
       (∀ j ∈ lp.gcJ g order', C07.WF j.e) →
@@ -208,9 +210,8 @@ theorem recover_boundary (g : Geom) (hB : g.B ≤ 65542) {l : Log} {J : List JE}
     (hpre0 : recoverPre g D policy none = .ok (lp0, e00, io0))
     (hrec0 : recover g D policy order none = .ok r0)
     (hgw0 : ∀ j ∈ lp0.gcJ g order, C07.WF j.e) (htorn : TornEffs r0.effects) :
-    AbsEq lp0.queues l.queues ∧
-    (∀ (w : Bool) X, CutW w D r0.effects X →
-      XRes g lp0.queues lp0.queues X ∧ (w = true → XInvRes g lp0.queues lp0.queues X)) := by
+    AbsEq lp0.queues l.queues ∧ (∃ st', Buf.run none r0.effects = some st') ∧
+    (∀ (w : Bool) X, CutW w D r0.effects X → XInvRes g lp0.queues lp0.queues X) := by
   obtain ⟨J0, lp, io, r, hpre, hrec, hlog, heff, hc0, hw0, hab, _⟩ := recover_okX g hB h hwf policy order
   rw [hpre0] at hpre
   simp only [Except.ok.injEq, Prod.mk.injEq] at hpre
@@ -218,7 +219,13 @@ theorem recover_boundary (g : Geom) (hB : g.B ≤ 65542) {l : Log} {J : List JE}
   rw [hrec0] at hrec
   simp only [Except.ok.injEq] at hrec
   subst hrec
-  refine ⟨hab, ?_⟩
+  have hdisc : ∃ st', Buf.run none ([Effect.ensureLen (lp0.files.headD 0) g.fileBytes] ++ (runGc g lp0 order).2.1) =
+      some st' := by
+    obtain ⟨st', hrun, _⟩ := C14.runGc_Disc g lp0 order none (Or.inl rfl)
+    refine ⟨st', ?_⟩
+    simp only [List.cons_append, List.nil_append, Buf.run, Buf.run1, if_true, Option.bind_some]
+    exact hrun
+  refine ⟨hab, by rw [heff]; exact hdisc, ?_⟩
   intro w X hX
   rw [heff] at hX htorn
   have hfits : ∀ j ∈ J0 ++ gcJ g lp0 order, C07.WF j.e := by
@@ -269,24 +276,27 @@ theorem reachX_inv (g : Geom) (hB : g.B ≤ 65542) (cap : Nat) {l : Log} {img : 
       obtain ⟨J', lp1, io1, F', a1, a2, a3, a4, a5, a6⟩ := xinvres_of_cinvx g hB hc hw pol
       exact ⟨J', lp1, io1, F', a1, a2, a3, a4, a5, Or.inl a6⟩
     exact (after_xinvres g cap hres policy order lp e0 io r hpre hrec hgw).1
-  | @crash l img b c tick order k cut X policy' order' lp e0 io r _ hb hwf htorn _ hbd hpre hrec hgw ih =>
-    obtain ⟨⟨J, hc, hw⟩, _⟩ := ih
+  | @crash l img b c tick order k cut X policy' order' lp e0 io r _ hb hwf htorn hXeq hpre hrec hgw ih =>
+    obtain ⟨⟨J, hc, hw⟩, st, hinv, hclean⟩ := ih
     rw [flushDisk_of_empty img b hb] at hc
-    obtain ⟨n, hn⟩ := hbd
+    obtain ⟨st', hrun, _⟩ := C14.step_Disc g l c tick order st hclean
+    have hcut := crash_cut cap _ b st st' img hinv hrun k cut
+    rw [pendW_nil b hb, List.nil_append, ← hXeq] at hcut
     have hfits : ∀ j ∈ J ++ l.stepJ g c order, C07.WF j.e := by
       intro j hj
       rcases List.mem_append.mp hj with hj | hj
       · exact hw j hj
       · exact hwf j hj
-    have hres := (call_cutX g hB hc c tick order hfits htorn true X
-      (by rw [hn]; exact CutW.of_take true _ n img)).2 rfl
+    have hres := call_cutX g hB hc c tick order hfits htorn false X (CutW.of_cutState hcut)
     exact (after_xinvres g cap hres policy' order' lp e0 io r hpre hrec hgw).1
-  | @crash2 l img b policy order lp0 e00 io0 r0 k cut X policy' order' lp e0 io r _ hpre0 hrec0 hgw0 htorn _
-      hbd hpre hrec hgw ih =>
+  | @crash2 l img b policy order lp0 e00 io0 r0 k cut X policy' order' lp e0 io r _ hpre0 hrec0 hgw0 htorn hXeq
+      hpre hrec hgw ih =>
     obtain ⟨⟨J, hc, hw⟩, _⟩ := ih
-    obtain ⟨n, hn⟩ := hbd
-    obtain ⟨_, hcut⟩ := recover_boundary g hB hc hw policy order lp0 e00 io0 r0 hpre0 hrec0 hgw0 htorn
-    have hres := (hcut true X (by rw [hn]; exact CutW.of_take true _ n _)).2 rfl
+    obtain ⟨_, ⟨st', hrun⟩, hcut⟩ := recover_boundary g hB hc hw policy order lp0 e00 io0 r0 hpre0 hrec0 hgw0 htorn
+    have hX := crash_cut cap _ {} none st' (flushDisk img b) (Buf.inv_empty cap none) hrun k cut
+    have hn : pendW ({} : BufSt) = [] := rfl
+    rw [hn, List.nil_append, ← hXeq] at hX
+    have hres := hcut false X (CutW.of_cutState hX)
     exact (after_xinvres g cap hres policy' order' lp e0 io r hpre hrec hgw).1
 
 /-! ### the theorems on `ReachX` -/
@@ -317,7 +327,7 @@ theorem C02_usable_crash_atomic (g : Geom) (hB : g.B ≤ 65542) (cap : Nat) (l :
     · exact hw j hj
     · exact hfits j hj
   obtain ⟨lp, e0, io, hrec, hq⟩ := (call_cutX g hB hc c tick order hfits' htorn false _
-    (CutW.of_cutState hX)).1 policy'
+    (CutW.of_cutState hX)).xres policy'
   obtain ⟨r, hr, hrq⟩ := recover_of_pre g _ policy' order' lp e0 io hrec
   exact ⟨r, hr, by rw [hrq]; exact hq⟩
 
@@ -332,23 +342,11 @@ theorem C02_usable_second_crash (g : Geom) (hB : g.B ≤ 65542) (cap : Nat) (l :
     ∃ rec', recover g (crashImage (flushDisk img b) (toOsOps cap {} r0.effects).2 k cut)
         policy' order' none = .ok rec' ∧ AbsEq rec'.log.queues l.queues := by
   obtain ⟨⟨J, hc, hw⟩, _⟩ := reachX_inv g hB cap h
-  obtain ⟨hab, hcut⟩ := recover_boundary g hB hc hw policy order lp0 e00 io0 r0 hpre0 hrec0 hgw0 htorn
-  -- the crash image is a cut state of the effects of `open`
-  have hdisc : ∃ st', Buf.run none r0.effects = some st' := by
-    obtain ⟨J0, lp, io, r, hpre, hrec, hlog, heff, _⟩ := recover_okX g hB hc hw policy order
-    rw [hrec0] at hrec
-    simp only [Except.ok.injEq] at hrec
-    subst hrec
-    obtain ⟨st', hrun, _⟩ := C14.runGc_Disc g lp order none (Or.inl rfl)
-    refine ⟨st', ?_⟩
-    rw [heff]
-    simp only [List.cons_append, List.nil_append, Buf.run, Buf.run1, if_true, Option.bind_some]
-    exact hrun
-  obtain ⟨st', hrun⟩ := hdisc
+  obtain ⟨hab, ⟨st', hrun⟩, hcut⟩ := recover_boundary g hB hc hw policy order lp0 e00 io0 r0 hpre0 hrec0 hgw0 htorn
   have hX := crash_cut cap _ {} none st' (flushDisk img b) (Buf.inv_empty cap none) hrun k cut
   have hn : pendW ({} : BufSt) = [] := rfl
   rw [hn, List.nil_append] at hX
-  obtain ⟨lp, e0, io, hrec, hq⟩ := (hcut false _ (CutW.of_cutState hX)).1 policy'
+  obtain ⟨lp, e0, io, hrec, hq⟩ := (hcut false _ (CutW.of_cutState hX)).xres policy'
   obtain ⟨r, hr, hrq⟩ := recover_of_pre g _ policy' order' lp e0 io hrec
   exact ⟨r, hr, by rw [hrq]; exact (hq.elim id id).trans hab⟩
 
@@ -360,15 +358,13 @@ theorem C02_usable_refines (g : Geom) (hB : g.B ≤ 65542) (cap : Nat) (l : Log)
   obtain ⟨⟨J, hc, _⟩, _⟩ := reachX_inv g hB cap h
   exact ⟨hc.jinv.h.inv, C05_refines g l hc.jinv.h.inv c tick order⟩
 
-/-- **`crash_cinvx`, covered crash points**: from any `ReachX` call boundary, at every crash point
-    whose image lies at an effect boundary, the recovered log with the disk and buffer after the
-    effects of `recover` satisfies the relaxed invariant, and has the abstract state before or
-    after the call -/
-theorem crash_cinvx_partial (g : Geom) (hB : g.B ≤ 65542) (cap : Nat) (l : Log) (img : Image) (b : BufSt)
+/-- **`crash_cinvx`, EVERY crash point**: from any `ReachX` call boundary, whatever the number `k` of
+    OS operations done and the byte `cut` at which operation `k` was cut, the recovered log with the
+    disk and buffer after the effects of `recover` satisfies the relaxed invariant, and has the
+    abstract state before or after the call -/
+theorem crash_cinvx (g : Geom) (hB : g.B ≤ 65542) (cap : Nat) (l : Log) (img : Image) (b : BufSt)
     (h : ReachX g cap l img b) (hb : b.pend = []) (c : Call) (tick : Bool) (order : List Bytes)
     (hfits : ∀ j ∈ l.stepJ g c order, C07.WF j.e) (htorn : C02A.TornStep g l c tick order) (k cut : Nat)
-    (hbd : AtBoundary img (l.step g c tick order).2.2
-      (crashImage img (toOsOps cap b (l.step g c tick order).2.2).2 k cut))
     (policy' : Policy) (order' : List Bytes) (lp : Log) (e0 : List Effect) (io : Nat) (rec : Recovered)
     (hpre : recoverPre g (crashImage img (toOsOps cap b (l.step g c tick order).2.2).2 k cut) policy' none =
       .ok (lp, e0, io))
@@ -380,19 +376,39 @@ theorem crash_cinvx_partial (g : Geom) (hB : g.B ≤ 65542) (cap : Nat) (l : Log
           (toOsOps cap {} rec.effects).2) (toOsOps cap {} rec.effects).1) ∧ ∀ j ∈ J', C07.WF j.e) ∧
       BufOK cap rec.log (toOsOps cap {} rec.effects).1 ∧
       (AbsEq rec.log.queues l.queues ∨ AbsEq rec.log.queues (l.step g c tick order).1.queues) := by
-  obtain ⟨⟨J, hc, hw⟩, _⟩ := reachX_inv g hB cap h
+  obtain ⟨⟨J, hc, hw⟩, st, hinv, hclean⟩ := reachX_inv g hB cap h
   rw [flushDisk_of_empty img b hb] at hc
-  obtain ⟨n, hn⟩ := hbd
+  obtain ⟨st', hrun, _⟩ := C14.step_Disc g l c tick order st hclean
+  have hcut := crash_cut cap _ b st st' img hinv hrun k cut
+  rw [pendW_nil b hb, List.nil_append] at hcut
   have hfits' : ∀ j ∈ J ++ l.stepJ g c order, C07.WF j.e := by
     intro j hj
     rcases List.mem_append.mp hj with hj | hj
     · exact hw j hj
     · exact hfits j hj
-  generalize crashImage img (toOsOps cap b (l.step g c tick order).2.2).2 k cut = X at hn hpre hrec ⊢
-  have hcw : CutW true img (l.step g c tick order).2.2 X := by rw [hn]; exact CutW.of_take true _ n img
-  have hres := (call_cutX g hB hc c tick order hfits' htorn true X hcw).2 rfl
+  have hres := call_cutX g hB hc c tick order hfits' htorn false _ (CutW.of_cutState hcut)
   obtain ⟨hx, hq⟩ := after_xinvres g cap hres policy' order' lp e0 io rec hpre hrec hgw
   exact ⟨hx.inv, hx.buf, hq⟩
+
+/-- `crash_cinvx` at the crash points lying at an effect boundary (kept from the previous delivery;
+    now a special case of `crash_cinvx`) -/
+theorem crash_cinvx_partial (g : Geom) (hB : g.B ≤ 65542) (cap : Nat) (l : Log) (img : Image) (b : BufSt)
+    (h : ReachX g cap l img b) (hb : b.pend = []) (c : Call) (tick : Bool) (order : List Bytes)
+    (hfits : ∀ j ∈ l.stepJ g c order, C07.WF j.e) (htorn : C02A.TornStep g l c tick order) (k cut : Nat)
+    (_hbd : AtBoundary img (l.step g c tick order).2.2
+      (crashImage img (toOsOps cap b (l.step g c tick order).2.2).2 k cut))
+    (policy' : Policy) (order' : List Bytes) (lp : Log) (e0 : List Effect) (io : Nat) (rec : Recovered)
+    (hpre : recoverPre g (crashImage img (toOsOps cap b (l.step g c tick order).2.2).2 k cut) policy' none =
+      .ok (lp, e0, io))
+    (hrec : recover g (crashImage img (toOsOps cap b (l.step g c tick order).2.2).2 k cut) policy' order' none =
+      .ok rec)
+    (hgw : ∀ j ∈ lp.gcJ g order', C07.WF j.e) :
+    (∃ J', CInvX g rec.log J'
+        (flushDisk (applyOsOps (crashImage img (toOsOps cap b (l.step g c tick order).2.2).2 k cut)
+          (toOsOps cap {} rec.effects).2) (toOsOps cap {} rec.effects).1) ∧ ∀ j ∈ J', C07.WF j.e) ∧
+      BufOK cap rec.log (toOsOps cap {} rec.effects).1 ∧
+      (AbsEq rec.log.queues l.queues ∨ AbsEq rec.log.queues (l.step g c tick order).1.queues) :=
+  crash_cinvx g hB cap l img b h hb c tick order hfits htorn k cut policy' order' lp e0 io rec hpre hrec hgw
 
 /-! ### which crash points lie at effect boundaries -/
 
@@ -430,12 +446,27 @@ theorem op_boundaries_covered (g : Geom) (hB : g.B ≤ 65542) (cap : Nat) (l : L
   rw [pendW_nil b hb, List.nil_append] at hn
   exact ⟨n, hn⟩
 
-/-- at the covered crash points the recovered state is `ReachX` again: (a), (b), (c) apply to it
-    and to everything that follows -/
+/-- after a crash at ANY point the recovered state is `ReachX` again: (a), (b), (c) apply to it and to
+    everything that follows -/
+theorem C02_usable_reach_all (g : Geom) (cap : Nat) (l : Log) (img : Image) (b : BufSt)
+    (h : ReachX g cap l img b) (hb : b.pend = []) (c : Call) (tick : Bool) (order : List Bytes)
+    (hfits : ∀ j ∈ l.stepJ g c order, C07.WF j.e) (htorn : C02A.TornStep g l c tick order) (k cut : Nat)
+    (policy' : Policy) (order' : List Bytes) (lp : Log) (e0 : List Effect) (io : Nat) (rec : Recovered)
+    (hpre : recoverPre g (crashImage img (toOsOps cap b (l.step g c tick order).2.2).2 k cut) policy' none =
+      .ok (lp, e0, io))
+    (hrec : recover g (crashImage img (toOsOps cap b (l.step g c tick order).2.2).2 k cut) policy' order' none =
+      .ok rec)
+    (hgw : ∀ j ∈ lp.gcJ g order', C07.WF j.e) :
+    ReachX g cap rec.log
+      (applyOsOps (crashImage img (toOsOps cap b (l.step g c tick order).2.2).2 k cut)
+        (toOsOps cap {} rec.effects).2) (toOsOps cap {} rec.effects).1 :=
+  ReachX.crash c tick order k cut _ policy' order' lp e0 io rec h hb hfits htorn rfl hpre hrec hgw
+
+/-- the same at the crash points lying at an effect boundary (kept from the previous delivery) -/
 theorem C02_usable_reach (g : Geom) (cap : Nat) (l : Log) (img : Image) (b : BufSt)
     (h : ReachX g cap l img b) (hb : b.pend = []) (c : Call) (tick : Bool) (order : List Bytes)
     (hfits : ∀ j ∈ l.stepJ g c order, C07.WF j.e) (htorn : C02A.TornStep g l c tick order) (k cut : Nat)
-    (hbd : AtBoundary img (l.step g c tick order).2.2
+    (_hbd : AtBoundary img (l.step g c tick order).2.2
       (crashImage img (toOsOps cap b (l.step g c tick order).2.2).2 k cut))
     (policy' : Policy) (order' : List Bytes) (lp : Log) (e0 : List Effect) (io : Nat) (rec : Recovered)
     (hpre : recoverPre g (crashImage img (toOsOps cap b (l.step g c tick order).2.2).2 k cut) policy' none =
@@ -446,7 +477,7 @@ theorem C02_usable_reach (g : Geom) (cap : Nat) (l : Log) (img : Image) (b : Buf
     ReachX g cap rec.log
       (applyOsOps (crashImage img (toOsOps cap b (l.step g c tick order).2.2).2 k cut)
         (toOsOps cap {} rec.effects).2) (toOsOps cap {} rec.effects).1 :=
-  ReachX.crash c tick order k cut _ policy' order' lp e0 io rec h hb hfits htorn rfl hbd hpre hrec hgw
+  C02_usable_reach_all g cap l img b h hb c tick order hfits htorn k cut policy' order' lp e0 io rec hpre hrec hgw
 
 /-- **C02, usability**: at EVERY crash point of a call from a `ReachX` boundary `recover`
     succeeds and the recovered log behaves exactly as the log `lref` — the log before the call or
